@@ -323,6 +323,10 @@ def guard_cases():
         out.append({"guard": "branching_self", "form": form, "expect": "error"})
     out.append({"guard": "branching_cycle2", "expect": "error"})
     out.append({"guard": "chain_then_tuple", "n": 60, "expect": "ok"})
+    # wide, not deep: many items that each unwrap to nothing (finished generators, dead threads), then one that has a frame:
+    # every step finishes an item, which is progress
+    for n in (50, 120, 300):
+        out.append({"guard": "wide_empties", "n": n, "expect": "ok"})
     out.append({"guard": "two_chains", "n": 80, "expect": "ok"})
     return out
 
@@ -365,6 +369,9 @@ def build_guard(g):
         for i in range(g["n"]):
             node = {"name": 1000 + i, "u": "one", "ch": [node]}
         return {"root": node, "elab": {}}
+    if kind == "wide_empties":
+        ch = [{"name": 1000 + i, "u": "empty", "ch": []} for i in range(g["n"])] + [{"f": 0}]
+        return {"root": {"name": 1, "u": "tuple", "ch": ch}, "elab": {}}
     if kind == "two_chains":
         # progress (a frame) between two chains of 80: the counter must reset
         inner = {"f": 1}
@@ -391,7 +398,7 @@ def check_guard(ws, interps, g, out):
                 viols.append({"desc": "guard %r on %s: expected the unwrapping-limit error, got error=%r frames=%r" % (
                     g, interp, res["error"], res["frames"]), "interp": interp})
         else:
-            exp = {"chain": [0], "chain_then_tuple": [0, 1], "two_chains": [0, 1]}[g["guard"]]
+            exp = {"chain": [0], "chain_then_tuple": [0, 1], "two_chains": [0, 1], "wide_empties": [0]}[g["guard"]]
             if res["error"] is not None or res["frames"] != exp or res["leaf"] is not None:
                 viols.append({"desc": "guard %r on %s: expected frames %r and no error, got %r" % (g, interp, exp, res),
                               "interp": interp})
@@ -469,10 +476,63 @@ def conserve(case, exp, ws, interps, out):
     return viols
 
 
+def equiv_shapes():
+    """arbitrary nestings (wrappers inside sequences, frames after sub-sequences) with simple hooks only; one hook-less frame
+    is designated to answer with the documented spellings of 'no change'"""
+    def node(children):
+        elab = st.sampled_from([["none"]] * 5 + [["prune"], ["empty"]])
+        elem = st.one_of(elab.map(lambda e: {"e": e}), elab.map(lambda e: {"e": e}), children)
+        return st.fixed_dictionaries({"u": st.sampled_from(["tuple", "list", "iter"]), "elems": st.lists(elem, min_size=1, max_size=4)})
+    base = st.fixed_dictionaries({"u": st.sampled_from(["tuple", "list", "iter"]),
+                                  "elems": st.lists(st.sampled_from([{"e": ["none"]}, {"e": ["none"]}, {"e": ["prune"]}]),
+                                                    min_size=1, max_size=3)})
+    return st.tuples(st.recursive(base, node, max_leaves=10), st.integers(0, 50),
+                     st.sampled_from(["self", "self_list", "self_tuple"]))
+
+
+def equiv_check(shape, pick, form, ws, interps, out):
+    """metamorphic: a hook that returns next_inner (bare, or as the only element of a sequence) is documented to be the same
+    as returning None - whatever the other hooks do afterwards, in zones where the exact outcome is debatable too"""
+    case = make_case("order", shape)
+    plain = [k for k, e in sorted(case["elab"].items(), key=lambda kv: int(kv[0])) if e == ["none"]]
+    if not plain:
+        return []
+    k = plain[pick % len(plain)]
+    variant = {"space": "equiv", "root": case["root"], "elab": dict(case["elab"], **{k: [form]})}
+    viols = []
+    for interp in interps:
+        try:
+            a = ws[interp].request({"op": "hooks.c10", "root": case["root"], "elab": case["elab"]})
+            b = ws[interp].request({"op": "hooks.c10", "root": variant["root"], "elab": variant["elab"]})
+        except WorkerDied as ex:
+            viols.append({"desc": "interpreter %s died (exit %r)" % (interp, ex.returncode), "interp": interp})
+            continue
+        out.per_interp[interp] += 2
+        ka = (a.get("frames"), a.get("leaf"), a.get("error"), a.get("raised"))
+        kb = (b.get("frames"), b.get("leaf"), b.get("error"), b.get("raised"))
+        if ka != kb:
+            viols.append({"desc": "frame %s returning next_inner (%s) is not the same as returning None on %s: None gives frames=%r "
+                                  "leaf=%r error=%r, next_inner gives frames=%r leaf=%r error=%r" % (
+                                      k, form, interp, ka[0], ka[1], ka[2] or ka[3], kb[0], kb[1], kb[2] or kb[3]),
+                          "interp": interp})
+    hooks = set(e[0] for e in case["elab"].values())
+    out.note_case({"equiv": {"shape": shape, "pick": pick, "form": form}}, bool(hooks & {"prune", "empty"}),
+                  classes=["space.equiv", "equiv." + form], n_eval=2 * len(interps))
+    return viols
+
+
 def shard(arg):
     out = Outcome()
     interps = arg["interps"]
     with WorkerSet(interps, hooks=False) as ws:
+        if not out.violations and arg.get("n_order", 0) > 0:
+            fail = hyp_search(equiv_shapes(), lambda t: equiv_check(t[0], t[1], t[2], ws, interps, out),
+                              seed=arg["seed"] + 3, max_examples=arg["n_order"], shrink=arg["shrink"])
+            if fail:
+                v = fail["violations"][0]
+                t = fail["case"]
+                out.violation(v["desc"], {"equiv": {"shape": t[0], "pick": t[1], "form": t[2]}}, v["interp"],
+                              flaky=fail["flaky"], origin="equiv")
         for g in arg.get("guards", []):
             v = check_guard(ws, interps, g, out)
             out.note_case(g, g["guard"] != "chain" or g.get("n", 0) >= 2, classes=["guard." + g["guard"]], n_eval=len(interps))
@@ -511,6 +571,9 @@ def replay(ctx, data):
         if "guard" in case:
             v = check_guard(ws, interps, case, out)
             out.note_case(case, True, n_eval=len(interps))
+        elif "equiv" in case:
+            e = case["equiv"]
+            v = equiv_check(e["shape"], e["pick"], e["form"], ws, interps, out)
         else:
             v = compare(case, ws, interps, out)
         for x in v:
